@@ -280,7 +280,7 @@ func (r *Report) controlSkipped() bool {
 		return false
 	}
 	for _, c := range r.ctx.SkippedControls {
-		if c == strings.ToLower(r.Prop) || c == "mc" || c == "ms" {
+		if c == strings.ToLower(r.Prop) || c == "mc" || c == "ms" || c == "axis" {
 			return true
 		}
 	}
